@@ -1,7 +1,7 @@
 (* Executable checkers applied to IMPLEMENTATION outputs by the correspondence checks (no proofs). *)
 From Coq Require Import NArith ZArith List Bool.
 Import ListNotations.
-Require Import UV.Gen.Consts UV.Mcount.Model UV.Mcount.Forest.
+Require Import UV.Gen.Consts UV.Mcount.Model UV.Mcount.Forest UV.Mcount.SelectSpec.
 Local Open Scope N_scope.
 
 Definition case4 := (cfg * list ev * list obs * list seen5)%type.
@@ -94,3 +94,7 @@ Definition ok_nested (l : list seen5) : bool := scan5 0 [] l.
 
 Definition has_switch (tr : list (N * trig)) : bool :=
   existsb (fun p => t_trace_on (snd p) || t_trace_off (snd p)) tr.
+
+(* C05 stage 1: -F / -N / -D option sets against the tree-recursive specification [sel] *)
+Definition ok_sel (flt : list (N * option bool)) (fm : bool) (gd : N) (f : list call) (orecs : list seen5) : bool :=
+  list_eqb seen_eqb orecs (map ideal (flat_map (sel (assoc None flt) gd (x0 fm gd) 0) f)).
